@@ -11,11 +11,12 @@ Next == \/ i = 0 /\ i' \in {-b : b \in 1..NB}
 Spec == Init /\ [][Next]_i
 StOf(c) == [cnt |-> c.cnt, alive |-> {c.alive[k] : k \in 1..Len(c.alive)}]
 Clauses(c) ==
-  LET r == Apply(StOf(c), c.op, c.t, c.h) IN
+  LET r == Apply(StOf(c), c.op, c.t, c.h, c.m) IN
      (IF c.exc = r.exc THEN {} ELSE {"C09-outcome"})
      \cup (IF \A h \in Handlers : c.calls[h] = r.calls[h] THEN {} ELSE {"C09-calls-per-observed-object"})
      \* the probe after the step: a change of the shared child calls as the specification's state after the step says
      \cup (IF \A h \in Handlers : c.probe[h] = CallsOnChange(r.st)[h] THEN {} ELSE {"C09-registrations-after-step"})
+     \cup (IF \A tt \in r.st.alive : \A h \in Handlers : c.probetag[tt][h] = CallsOnTag(r.st, tt)[h] THEN {} ELSE {"C09-registrations-after-step-own-trait"})
      \cup (IF c.op = "collect" /\ c.collected = 0 THEN {"C09-registration-keeps-observed-object-alive"} ELSE {})
 Judge == i <= 0 \/ LET f == Clauses(Trace[i]) IN IF f = {} THEN TRUE ELSE PrintT(<<"REJECT", i, f>>)
 AllJudged == TLCGet("distinct") = N + NB + 1
